@@ -632,3 +632,57 @@ fn svg_places() {
         }
     }
 }
+
+/// V:geom:fo_char:* / V:geom:from_operations:* / fo.grammar — strings of the notation (any term order, optional blanks and
+/// parentheses, single-digit rational constants) parse to the affine map they denote; other strings never panic
+#[test]
+fn parse_grammar() {
+    use nalgebra::Matrix3;
+    let mut r = rng();
+    let gen_row = |r: &mut Pcg64Mcg| -> (String, [f64; 3]) {
+        // a random subset of {x-term, y-term, constant} in a random order
+        let mut kinds: Vec<u8> = vec![0, 1, 2];
+        kinds.shuffle(r);
+        let n = r.gen_range(1, 4);
+        let mut s = String::new();
+        let mut val = [0f64; 3];
+        for (i, k) in kinds.iter().take(n).enumerate() {
+            let neg = r.gen::<bool>();
+            if r.gen::<bool>() { s.push(' '); }
+            if neg { s.push('-'); } else if i > 0 || r.gen_range(0, 4) == 0 { s.push('+'); }
+            if r.gen_range(0, 3) == 0 { s.push(' '); }
+            let sg = if neg { -1. } else { 1. };
+            match k {
+                0 => { s.push('x'); val[0] = sg; }
+                1 => { s.push('y'); val[1] = sg; }
+                _ => {
+                    let num = r.gen_range(0, 10); s.push_str(&num.to_string());
+                    if r.gen::<bool>() { let den = r.gen_range(1, 10); s.push('/'); s.push_str(&den.to_string()); val[2] = sg * num as f64 / den as f64; } else { val[2] = sg * num as f64; }
+                }
+            }
+        }
+        if r.gen_range(0, 3) == 0 { s.push(' '); }
+        (s, val)
+    };
+    for _ in 0..20000 {
+        let (s0, v0) = gen_row(&mut r);
+        let (s1, v1) = gen_row(&mut r);
+        let s = if r.gen::<bool>() { format!("({},{})", s0, s1) } else { format!("{},{}", s0, s1) };
+        let t = match std::panic::catch_unwind(|| Transform2::from_operations(&s)) {
+            Err(_) => panic!("WITNESS from_operations({:?}) panics", s),
+            Ok(Err(e)) => panic!("WITNESS from_operations({:?}) is rejected: {}", s, e),
+            Ok(Ok(t)) => t,
+        };
+        let m: Matrix3<f64> = t.into();
+        let got = [m[(0, 0)], m[(0, 1)], m[(0, 2)], m[(1, 0)], m[(1, 1)], m[(1, 2)]];
+        let want = [v0[0], v0[1], v0[2], v1[0], v1[1], v1[2]];
+        assert!(got.iter().zip(want.iter()).all(|(a, b)| (a - b).abs() <= 1e-12), "WITNESS from_operations({:?}) = rows {:?}, the expression denotes {:?}", s, got, want);
+    }
+    // arbitrary other strings: an error or a value, never a panic
+    let alphabet: Vec<char> = "xy+-*/0123456789 (),.abzXY½²٣１Ⅷ\t".chars().collect();
+    for _ in 0..20000 {
+        let n = r.gen_range(0, 12);
+        let s: String = (0..n).map(|_| alphabet[r.gen_range(0, alphabet.len())]).collect();
+        if std::panic::catch_unwind(|| Transform2::from_operations(&s).is_ok()).is_err() { panic!("WITNESS from_operations({:?}) panics", s); }
+    }
+}
